@@ -94,7 +94,7 @@ class StreamInteractions(Contract):
         r = outcome[1]
         gh = getattr(r, 'ghost', None)
         if gh is None or r.items:
-            return self.forbid(ctx, 'C05.stream.yields_event_tuples', tags=T)
+            return self.shape(ctx, 'C05.stream.yields_event_tuples', tags=T)
         ycnt = gh['$ycnt'].z
         ctx.oblige('C05.stream.each_logged_event_exactly_once', ycnt[c.q][c.key] == b2i(self.logged(c.pre, c.q, c.key)), tags=T)
         for comp, f in spec.state_unchanged(c.g, c.pre).items():
